@@ -1071,6 +1071,67 @@ func c10Confinement(c *Ctx, a *clientAnchors) {
 		sig, ok := optT.Type().Underlying().(*types.Signature)
 		return ok && f.Parent() != nil && types.Identical(f.Signature, sig)
 	}
+	// a step of construction: an unexported function of the package that is never used as a value and whose every call
+	// site lies in the constructor before the receive loop is started (or in another such step)
+	startIn := func() ssa.Instruction {
+		var start ssa.Instruction = a.goIns
+		if a.goIns != nil && a.goIns.Parent() != a.ctor {
+			start = nil
+			allInstrs(a.ctor, func(x ssa.Instruction) {
+				if ci, ok := x.(ssa.CallInstruction); ok && ci.Common().StaticCallee() == a.goIns.Parent() {
+					start = x
+				}
+			})
+		}
+		return start
+	}()
+	beforeStart := func(site ssa.Instruction) bool {
+		if startIn == nil || site.Parent() != a.ctor {
+			return false
+		}
+		if site.Block() == startIn.Block() {
+			for _, in := range site.Block().Instrs {
+				if in == site {
+					return true
+				}
+				if in == startIn {
+					return false
+				}
+			}
+		}
+		return !reachFromSuccs(startIn.Block(), nil, nil)[site.Block()]
+	}
+	var constructionStep func(f *ssa.Function, depth int) bool
+	constructionStep = func(f *ssa.Function, depth int) bool {
+		if depth > 3 || f.Parent() != nil || token.IsExported(f.Name()) || f == a.ctor {
+			return false
+		}
+		sites := 0
+		ok := true
+		for _, g := range a.pkgFuncs(c.P) {
+			allInstrs(g, func(in ssa.Instruction) {
+				ci, isCall := in.(ssa.CallInstruction)
+				for _, op := range in.Operands(nil) {
+					if op == nil || *op != ssa.Value(f) {
+						continue
+					}
+					if !isCall || ci.Common().StaticCallee() != f || ci.Common().Value != ssa.Value(f) {
+						ok = false // used as a value
+						continue
+					}
+					if _, isGo := in.(*ssa.Go); isGo {
+						ok = false
+						continue
+					}
+					sites++
+					if !(beforeStart(in) || (g != f && constructionStep(g, depth+1))) {
+						ok = false
+					}
+				}
+			})
+		}
+		return ok && sites > 0
+	}
 	for _, f := range a.pkgFuncs(c.P) {
 		allInstrs(f, func(in ssa.Instruction) {
 			st, ok := in.(*ssa.Store)
@@ -1079,7 +1140,7 @@ func c10Confinement(c *Ctx, a *clientAnchors) {
 					if pt, ok := fa.X.Type().Underlying().(*types.Pointer); ok {
 						if n, ok := pt.Elem().(*types.Named); ok && n.Obj() == a.client.Obj() {
 							fname := n.Underlying().(*types.Struct).Field(fa.Field).Name()
-							r.Check(f == a.ctor || isOpt(f), "C10-K6", shortName(f)+": write of Client."+fname, c.P.ipos(in), "writer is the constructor or a ClientOpt",
+							r.Check(f == a.ctor || isOpt(f) || constructionStep(f, 0), "C10-K6", shortName(f)+": write of Client."+fname, c.P.ipos(in), "writer is the constructor or a ClientOpt",
 								"a Client field is written after construction without synchronisation (readers: receive loop, concurrent calls)")
 						}
 					}
